@@ -3,12 +3,18 @@ import FqModel.Bits
 import FqModel.Bitio
 import FqModel.C01Readers
 import FqModel.C01Spec
+import FqModel.C01Bitiox
 /-! driver for C01
 
   `r64 <hex buf> <firstBit> <nBits>`            TAB `<value>|panic`      bitio.Read64
   `w64 <v> <nBits> <hex buf> <firstBit>`        TAB `<hex buf'>|panic`   bitio.Write64
   `bw <nBits>:<hex> …`                          TAB `<hex written>`      bitio.IOBitWriter over a bytes.Buffer: WriteBits per chunk, then Flush
   `h <term> | <op> ; <op> ; …`                  TAB `<obs>;<obs>;…`      one history on one reader composition
+  `bxr <term> | <off> <n> | <op> ; <op> ; …`    TAB `<ok|negn|outside|eof|off|oth|panic> <cursor|-> | <obs>;…`
+                                                bitiox.Range(term, off, n): error class, SeekBits(0,current) of the ARGUMENT after the
+                                                call, then the history on the RETURNED reader
+  `bxc <term> | <w|b> <len(buf)|-1>`            TAB `<n> <hex> <error class>` | `panic`
+                                                bitiox.CopyBitsBuffer / CopyBits (-1 = nil buffer) into a plain io.Writer (w) or a bytes.Buffer (b)
 
   term (prefix):  B <hex> <nBits|-1> | S <off> <n> T | M <k> T×k | Z <n> | L <n> T | I U | O (F <hex> | G <size> <seed>)
                   U: R <hex> | F <hex> | G <size> <seed> | A <minRead> U | P <precision> <total> U | C U | Y T | y T
@@ -463,8 +469,11 @@ def isBitKind : Rd → Bool
 def lookupCur (pcs : List (List Nat × Cur)) (path : List Nat) : Option Cur :=
   (pcs.find? (fun x => x.1 == path)).map (·.2)
 
-def histVerdict (s : Rd) (marks : Marks) (ops : List DOp) (impl : List Obs) : String := Id.run do
-  let (model, bad) := runModel [s] 0 ops 0
+/-- `sm`: the state the operational model starts from; `s`: the reader the specification cursor (`denF`) is taken from
+    (the same reader, except for `bxr`, where `sm` is what the model of bitiox.Range returned and `s` is the
+    section written down directly) -/
+def histVerdictOn (sm s : Rd) (marks : Marks) (ops : List DOp) (impl : List Obs) : String := Id.run do
+  let (model, bad) := runModel [sm] 0 ops 0
   if let some why := bad then return s!"BADOP model: {why}"
   -- correspondence
   let mobs := model.map (·.1)
@@ -581,6 +590,96 @@ def histVerdict (s : Rd) (marks : Marks) (ops : List DOp) (impl : List Obs) : St
     | none => return s!"PROPFAIL op{i}: {why}" ++ (if div.isEmpty then "" else s!" ;DIVERGE model={div}")
   | none => return (if div.isEmpty then "OK" else s!"DIVERGE model={div}")
 
+def histVerdict (s : Rd) (marks : Marks) (ops : List DOp) (impl : List Obs) : String := histVerdictOn s s marks ops impl
+
+/-! ### bitiox.Range / CopyBits cases -/
+
+def splitTrim (s : String) (sep : String) : List String := (s.splitOn sep).map (fun x => x.trimAscii.toString)
+
+def bxrVerdict (t sa so obs : String) : String :=
+  let tws := (words t).drop 1
+  match parseTerm (tws.length + 1) tws, (words sa).mapM parseInt, (splitTrim so ";").filter (· ≠ "") |>.mapM parseOp,
+      splitTrim obs "|" with
+  | some (arg, [], marks), some [off, n], some ops, [head, hobs] =>
+    match words head, ((splitTrim hobs ";").filter (· ≠ "")).mapM parseObs with
+    | [cls, cur], some impl =>
+      if !(["ok", "negn", "outside", "eof", "off", "neg", "ueof", "oth", "panic"].contains cls) then "BADOP class" else
+      -- the model of bitiox.Range on the same argument
+      let (mhead, ms, mq) : String × Option Rd × Nat := match bxRange (step depthFuel) arg off n with
+        | .ok (arg', res, q) =>
+          let c := match res with
+            | .ok _ | .okNegBase _ _ => "ok"
+            | .lenErr e => errStr (some e)
+            | .negativeNBits => "negn"
+            | .outsideBuffer => "outside"
+          let s := match res with | .ok s => some s | _ => none
+          (s!"{c} {posOf arg'}", s, q)
+        | .fault _ => ("panic -", none, 0)
+        | .hang => ("hang -", none, 0)
+        | .unsupported why => (s!"unsupported {why}", none, 0)
+      if mhead.startsWith "unsupported" then s!"BADOP model: {mhead}" else
+      let div := if mhead == s!"{cls} {cur}" then "" else s!" ;DIVERGE model={mhead}"
+      -- the property, on the implementation's observation: the three exits by the length of the denoted bits, and
+      -- the argument's cursor is where it was (off < 0 with off + n ≤ len: outside the quantifier, model only)
+      let len : Int := (denF arg).len
+      let cur0 : Int := match marks.find? (fun x => x.1 == []) with | some (_, p) => p | none => 0
+      let expected : Option String :=
+        if n < 0 then some "negn" else if off + n > len then some "outside" else if off ≥ 0 then some "ok" else none
+      let bad : Option String :=
+        match expected with
+        | some e =>
+          if e != cls then some s!"Range({off},{n}) on {len} bits: {cls}, expected {e}"
+          else if cur != toString cur0 then some s!"the argument's cursor is {cur} after Range, it was {cur0}"
+          else none
+        | none => none
+      match bad with
+      | some why => if mq &&& qIoSeek ≠ 0 && div.isEmpty then s!"KNOWN ioreadseeker-unaligned-seek {why}" else s!"PROPFAIL {why}{div}"
+      | none =>
+        if !div.isEmpty then s!"DIVERGE model={mhead}" else
+        if cls == "ok" && off ≥ 0 then
+          match ms with
+          | some s => histVerdictOn s (newSect arg off.toNat n.toNat) [] ops impl
+          | none => "BADOP model returned no reader"
+        else if impl.isEmpty then "OK" else "BADOP observations without a reader"
+    | _, _ => "BADOP obs"
+  | _, _, _, _ => "BADOP bxr syntax"
+
+def bxcVerdict (t sm obs : String) : String :=
+  let tws := (words t).drop 1
+  match parseTerm (tws.length + 1) tws, words sm with
+  | some (src, [], _), [mode, sk] =>
+    match parseInt sk with
+    | none => "BADOP buffer length"
+    | some k =>
+      if mode != "w" && mode != "b" then "BADOP mode" else
+      let buf : Option Nat := if k < 0 then none else some k.toNat
+      -- what is left of the source at its cursor (LimitReader: at most its budget)
+      let (d, lim) : DenF × Option Nat := match src with
+        | .limit r m => (denF r, some m)
+        | s => (denF s, none)
+      let p := posOf src
+      let cnt := match lim with | some m => min m (d.len - p) | none => d.len - p
+      let fuel := bitsByteCount cnt + 2
+      let out := if mode == "w" then copyBitsBuffer depthFuel src buf fuel
+        else copyBitsReadFrom depthFuel src buf (List.replicate fuel 512)
+      let (model, q) := match out with
+        | .ok (_, res) => (s!"{res.n} {hexOrDash res.bytes} {errStr res.err}", res.q)
+        | .fault _ => ("panic", 0)
+        | .hang => ("hang", 0)
+        | .unsupported why => (s!"unsupported {why}", 0)
+      if model.startsWith "unsupported" then s!"BADOP model: {model}" else
+      let obs := obs.trimAscii.toString
+      let div := if model == obs then "" else s!" ;DIVERGE model={model}"
+      -- the property: the bytes are the zero padded packing of the bits, count = their number, no error
+      -- (a non-nil empty buffer is outside its hypothesis: io.CopyBuffer panics)
+      let expB := packR (d.get p cnt)
+      let expected := s!"{expB.length} {hexOrDash expB} ok"
+      if k != 0 && obs != expected then
+        if q &&& qIoSeek ≠ 0 && div.isEmpty then s!"KNOWN ioreadseeker-unaligned-seek copy = {obs}"
+        else s!"PROPFAIL copy = {obs}, the packed bits are {expected}{div}"
+      else if div.isEmpty then "OK" else s!"DIVERGE model={model}"
+  | _, _ => "BADOP bxc syntax"
+
 /-! ### Read64 / Write64 / IOBitWriter cases -/
 
 def r64Verdict (hex sfb snb obs : String) : String :=
@@ -637,6 +736,14 @@ def stepC01 (op obs : String) : String :=
   | ["r64", hex, fb, nb] => r64Verdict hex fb nb obs.trimAscii.toString
   | ["w64", v, nb, hex, fb] => w64Verdict v nb hex fb obs.trimAscii.toString
   | "bw" :: chunks => bwVerdict chunks obs.trimAscii.toString
+  | "bxr" :: _ =>
+    match op.splitOn "|" with
+    | [t, a, o] => bxrVerdict t a o obs
+    | _ => "BADOP bxr syntax"
+  | "bxc" :: _ =>
+    match op.splitOn "|" with
+    | [t, m] => bxcVerdict t m obs
+    | _ => "BADOP bxc syntax"
   | "h" :: _ =>
     match op.splitOn "|" with
     | [t, o] =>
